@@ -119,10 +119,23 @@ def main(argv):
             os.makedirs(fixdir)
             from vlib import fixtures
             try:
-                fixtures.build(fixdir)
+                groups = sorted({g for m in needs_fix for g in plan.NEEDS_FIXTURES[m]})
+                fixtures.build(fixdir, groups)
             except Exception as e:  # fixtures cannot be built from /repo
                 import traceback
                 traceback.print_exc()
+                if prop in plan.FIXTURE_FAILURE_IS_VIOLATION:
+                    # the catalogue consists of valid specs: a compiler / backend that refuses or crashes on them
+                    # violates this property itself (C01: a valid spec is never refused; C03: no stray exception;
+                    # C14: the client imports next to the types).  Replay = rebuild the fixtures.
+                    os.makedirs(os.path.join(ROOT, 'replays', prop), exist_ok=True)
+                    rpath = os.path.join(ROOT, 'replays', prop, 'fixtures.json')
+                    with open(rpath, 'w') as f:
+                        json.dump(dict(property=prop, module='vlib.fixtures', function='build_check', item='', tier=tier,
+                                       args={'groups': repr(tuple(groups))}, observed=repr(e)[:1500]), f, indent=1)
+                    print('VIOLATED       the catalogue of valid specs cannot be compiled / imported: %r' % (e,))
+                    print('VIOLATION property=%s replay=%s' % (prop, rpath))
+                    return 1
                 print('HARNESS-ERROR: fixtures cannot be built from /repo: %r' % (e,))
                 return EXIT_HARNESS_ERROR
             os.environ['VERIF_FIXDIR'] = fixdir
